@@ -33,6 +33,9 @@ add("C15", "Coq theorems over an A64 ISA fragment for ALL 64-bit fake addresses 
 add("C16", "Coq theorems over an A32/T32 ISA fragment for ALL 32-bit source and fake addresses in each of the three entry cases (A32; T32 = 0 mod 4; T32 = 2 mod 4) and both fake states: the word read by the literal load is the one holding the fake (Thumb bit included), BX interworks to it, only the scratch register is written; saved range = overwritten 12 bytes; r12 (repaired A32) is not callee-saved, r9 (pinned) and r7 (Thumb, KNOWN FINDING) are. Tied by running the unmodified patch_arm.rs on simulated memory vs the extracted model, executing the implementation's bytes with the extracted semantics, and llvm-mc on every distinct code unit.",
     "Trusted: Coq kernel; hand-written A32/T32 fragment (validated against llvm-mc-14). ARM code cannot be executed here (partial: no hardware). Known finding: Thumb scratch register r7.")
 
+add("C11", "Coq theorems against an ARBITRARY kernel oracle (no assumption on mmap's answers): a successful allocation is within the acceptance range and exactly that mapping is kept (every rejected placement munmapped); a failed one panics with nothing mapped and nothing written, the loop never runs out of fuel; a panicking installation leaves the function untouched; every accepted placement is encodable (x86-64 rel32 form; AArch64 B, composed with the strict allocator); the pinned inclusive bound is refuted at +128 MiB. Tied by the library's own allocator against the real kernel with the window empty / fully reserved / reserved except one page at random and extreme offsets / clipped at zero, and scripted kernels, vs the extracted loop on the observed answers.",
+    "Trusted: Coq kernel; the model (correspondence); interposers and window reservation. AArch64 composite claim rests on C15 (no hardware).")
+
 def main():
     props = [json.loads(l) for l in open(os.path.join(V, "properties.jsonl"))]
     checks = [C[p["id"]] for p in props if p["id"] in C]
